@@ -2353,17 +2353,27 @@ def run_together(case):
                 except Exception as e:   # noqa
                     rns.append(e)
             bands = make_bands(case, True)
+            kw_ = dict(scheduler='synchronous') if case['sched'] == 'synchronous' else \
+                dict(scheduler='threads', num_workers=case['workers'])
             lazies = []
-            for vc in variants:
+            alone = {}
+            for i, vc in enumerate(variants):
+                # a variant that replaces a band gets its own Dask rasters (same shape and chunks), the others share
+                vb = make_bands(vc, True) if any(k in case['variants'][i] for k in ('data', 'data2', 'data3')) else bands
                 try:
-                    lazies.append(call_fn(vc, True, bands=bands).data)
+                    lazies.append(call_fn(vc, True, bands=vb).data)
                 except Exception as e:   # noqa
                     lazies.append(e)
-            idx = [i for i, l in enumerate(lazies) if isinstance(l, da.Array)]
-            computed = {}
+                if isinstance(rns[i], Exception) and isinstance(lazies[i], da.Array):
+                    # rejected by the NumPy backend: computed ALONE (it must not poison the joint compute of the valid
+                    # variants); a consistent rejection is not a violation, and there is no reference result either way
+                    try:
+                        alone[i] = lazies[i].compute(**kw_)
+                    except Exception as e:   # noqa
+                        alone[i] = e
+            idx = [i for i, l in enumerate(lazies) if isinstance(l, da.Array) and i not in alone]
+            computed = dict(alone)
             try:
-                kw_ = dict(scheduler='synchronous') if case['sched'] == 'synchronous' else \
-                    dict(scheduler='threads', num_workers=case['workers'])
                 outs = dask.compute(*[lazies[i] for i in idx], **kw_)
                 for i, o in zip(idx, outs):
                     computed[i] = o
@@ -2375,7 +2385,7 @@ def run_together(case):
                 if isinstance(l, Exception):
                     res.append((vc, rns[i], l, None))
                 elif i in computed:
-                    res.append((vc, rns[i], computed[i], True))
+                    res.append((vc, rns[i], computed[i], ('dask', str(l.dtype))))
                 else:
                     res.append((vc, rns[i], np.asarray(l), False))
     return res
@@ -2387,6 +2397,10 @@ def explore_together(ctx, case):
     ok = True
     for i, (vc, rn, rd, isd) in enumerate(run_together(case)):
         n0 = len(ctx.violations)
+        if isinstance(rn, Exception):
+            ctx.count('together/rejected-by-numpy/%s' % ('same-on-dask' if isinstance(rd, Exception) and
+                                                         type(rd).__name__ == type(rn).__name__ else
+                                                         'dask-%s' % (type(rd).__name__ if isinstance(rd, Exception) else 'accepts')))
         r = oracle(ctx, vc, rn, rd, isd)
         for v in ctx.violations[n0:]:
             # the replay must rebuild the whole group, not the single variant
@@ -2404,6 +2418,92 @@ def gen_together(rng, fn):
         c = gen_case(rng, fn, rng.randint(2, 9), rng.randint(2, 9))
     c['variants'] = gen_variants(rng, c)
     return c
+
+
+# ------------------------------------------------------------------ systematic "computed together" variants
+def single_param_variants(rng, case):
+    """every variant differs from the case in EXACTLY ONE parameter (or one band of the data, same shape and chunks)"""
+    fn = case['fn']
+    H, W = case['H'], case['W']
+    out = []
+
+    def newdata(key):
+        kind = 'spectral' if fn in SPECTRAL2 + SPECTRAL3 + ['true_color'] and case['dtype'] not in ('int8', 'uint8') else \
+            'tiny' if fn == 'binary' else 'small'
+        return {key: gen_data(rng, H, W, case['dtype'], kind)}
+    if fn == 'reclassify':
+        out += [dict(new_values=[v * 100 + 7 for v in case['new_values']]), dict(bins=[b + 1.0 for b in case['bins']])]
+    elif fn == 'binary':
+        out += [dict(values=[float(rng.randint(0, 4)) for _ in range(rng.randint(1, 3))])]
+    elif fn == 'equal_interval':
+        out += [dict(k=case['k'] + 1)]
+    elif fn == 'hillshade':
+        out += [dict(azimuth=case['azimuth'] + 45), dict(angle_altitude=(case['angle_altitude'] + 20) % 90)]
+    elif fn == 'mean':
+        out += [dict(passes=case['passes'] + 1), dict(excludes=[float(rng.randint(-5, 20))])]
+    elif fn in KERNELLED:
+        k = case['kernel']
+        out += [dict(kernel=gen_kernel(rng, H, W, binary=(fn != 'convolution_2d'), force=(len(k), len(k[0]))))]
+        if fn == 'apply':
+            out += [dict(func=rng.choice([f for f in APPLY_FUNCS if f != case['func']]))]
+        if fn == 'focal_stats':
+            out += [dict(stats=[rng.choice([x for x in STATS if x not in case['stats']] or STATS)])]
+    elif fn == 'savi':
+        out += [dict(soil_factor=-case['soil_factor'] if case['soil_factor'] else 0.5)]
+    elif fn == 'evi':
+        base = dict(dict(c1=6.0, c2=7.5, soil_factor=1.0, gain=2.5), **(case.get('evi_params') or {}))
+        out += [dict(evi_params=dict(base, gain=base['gain'] + 1.0)), dict(evi_params=dict(base, c1=base['c1'] + 1.0))]
+    elif fn == 'true_color':
+        out += [dict(nodata=case['nodata'] + 2), dict(c=case['c'] + 3.0), dict(th=0.25 if case['th'] != 0.25 else 0.5)]
+    elif fn == 'perlin':
+        out += [dict(seed=case['seed'] + 1), dict(freq=[case['freq'][0] + 1, case['freq'][1]])]
+    elif fn == 'generate_terrain':
+        fe = case.get('full_extent') or [0, 0, 500, 500]
+        xr_ = case.get('x_range') or [0, 500]
+        yr_ = case.get('y_range') or [0, 500]
+        wx = xr_[1] - xr_[0]
+        # the neighbouring tile of the same full extent: same seed, same shape, other x_range
+        out += [dict(x_range=[xr_[0] + wx / 2.0, xr_[1] + wx / 2.0], y_range=list(yr_), full_extent=list(fe)),
+                dict(seed=case['seed'] + 1), dict(zfactor=case['zfactor'] * 2 + 1)]
+    if fn not in ('perlin', 'generate_terrain'):
+        for key in ('data', 'data2', 'data3'):
+            if key in case:
+                out.append(newdata(key))
+    return out
+
+
+def gen_together_systematic(rng, fn, nvar=2):
+    if fn == 'generate_terrain':
+        c = gen_case(rng, fn, rng.randint(2, 4), rng.randint(2, 4))
+        c['x_range'], c['y_range'], c['full_extent'] = [0, 250], [0, 250], [0, 0, 500, 500]
+        c['seed'] = rng.choice([0, 3, 10])
+        c['dtype'] = 'float32'
+    else:
+        c = gen_case(rng, fn, rng.randint(3, 8), rng.randint(3, 8))
+        if c['dtype'] == 'float16':
+            c['dtype'] = 'float32'
+    allv = single_param_variants(rng, c)
+    if fn == 'generate_terrain':
+        pick = allv[:1] + (rng.sample(allv[1:], nvar - 1) if nvar > 1 else [])       # the tile pair always
+    else:
+        pick = rng.sample(allv, min(nvar, len(allv)))
+    c['variants'] = [{}] + pick
+    c['kind'] = 'together-1param'
+    return c
+
+
+def together_systematic_stream(ctx, rng, quick):
+    if quick:
+        plan = [('generate_terrain', 1), ('perlin', 1)] + [(fn, 2) for fn in rng.sample(
+            ['reclassify', 'binary', 'equal_interval', 'hillshade', 'mean', 'convolution_2d', 'hotspots', 'apply', 'focal_stats',
+             'savi', 'evi', 'true_color', 'ndvi', 'arvi', 'slope'], 4)]
+    else:
+        plan = [('generate_terrain', 3)] * 3 + [(fn, 3) for fn in ALL_FNS if fn != 'generate_terrain'] * 4
+    for fn, nvar in plan:
+        c = gen_together_systematic(rng, fn, nvar)
+        for v in c['variants'][1:]:
+            ctx.count('together-1param/%s/%s' % (fn, '+'.join(sorted(v))))
+        explore_together(ctx, c)
 
 
 # ------------------------------------------------------------------ run / search / replay
@@ -2557,6 +2657,9 @@ def run(ctx, heavy=False):
     # orders / falsy values, kernels of 100+ cells, coordinate origins and spacings, degenerate rasters, memory layouts,
     # per-argument chunkings, and call sequences (repeat, deferred compute, chained lazy results, derived rasters)
     theme_stream(ctx, rng, quick)
+    # 6. (appended last) several lazy results in ONE dask.compute, the variants differing in exactly one parameter
+    # (extent tile pair of generate_terrain, seed, zfactor, kernel, bins, new_values, nodata, k, one band of the data)
+    together_systematic_stream(ctx, rng, quick)
 
 
 def search(ctx):
@@ -2583,6 +2686,7 @@ def search(ctx):
                     explore_together(ctx, gen_together(rng, fn))
             if rounds == 1:
                 explore_together(ctx, gen_together(rng, 'generate_terrain'))
+                explore_together(ctx, gen_together_systematic(rng, 'generate_terrain', 3))
             for _ in range(10):
                 explore(ctx, gen_threshold_case(rng, 'equal_interval'), None)
             if len([v for v in ctx.violations if v['kind'] == 'oracle']) > n0:
